@@ -5,6 +5,7 @@ from .common import TRUSTED, ASSUMPTIONS, default_nontrivial
 LEVEL = "proof"
 THEOREMS = ["C09_projection", "C09_projection_dist", "C09_max_lift", "C09_max_u_ge", "C09_max_u_formula",
             "C09_max_keeps_projection", "C09_max_wf", "C09_zero_mass", "C09_idempotent"]
+EXTRA_MODULES = [("SLV.Props.OracleSpec", ("OS_projQ", "OS_maxUQ"))]
 RULE = ("ops proj/maxu/umax on well-formed opinions: random dyadic grids (1/4..1/64) with zero base rates, "
         "vacuous/dogmatic/zero-mass opinions, arbitrary floats; n=1..4 and 2-D shapes via flattening; "
         "families A/M/D/N, styles o/r/s, f32+f64. non-trivial = implementation returned a value and the "
